@@ -21,9 +21,9 @@ RULE = (
 )
 ASSUMPTIONS = ["gitignore pattern semantics are those of the pathspec library; negations are only generated for files whose directory is not itself excluded", "ignore sources above the working directory are not generated (their applicability is not decided by the statement)"]
 TIMEOUT = {"quick": 600, "thorough": 1200}
-MIN_NONTRIVIAL = {"quick": 80, "thorough": 800}
+MIN_NONTRIVIAL = {"quick": 80, "thorough": 500}
 REQUIRED_COUNTERS = ["spellings_compared", "model_comparisons"]
-N = 2400
+N = 1200
 DIRS = ["", "d1", "d1/d2", "d1/d2/d3", "e1", "d1x", "d1/d2x"]
 FILES = ["a.sql", "b.sql", "keep.sql", "Q.SQL", "x.txt"]
 PATTERNS = ["a.sql", "b.sql", "d2/", "d3/", "*.sql\n!keep.sql", "/a.sql", "**/b.sql", "d2/a.sql", "d1/", "e1/", "keep.sql", "d2/d3/", "*.SQL", "/d1/d2/b.sql", "q.sql", "d1/d2/"]
